@@ -183,6 +183,27 @@ int main()
       }
       res << stl << ' ' << hex(lhs.str()) << ' ' << str_ << ' ' << hex(rhs.str());
     }
+    else if (mode == "resume")
+    {
+      std::stringstream ss;
+      binlog::IstreamEntryStream es(ss);
+      binlog::EventStream evs;
+      binlog::PrettyPrinter pp(arg(0), arg(1));
+      for (std::size_t i = 3; i < t.size(); ++i)
+      {
+        const std::string piece = unhex(t[i]);
+        ss.clear();
+        ss.write(piece.data(), std::streamsize(piece.size()));
+        std::ostringstream out;
+        std::string st = "ok";
+        try { while (const binlog::Event* e = evs.nextEvent(es)) { pp.printEvent(out, *e, evs.writerProp(), evs.clockSync()); } }
+        catch (const std::exception& ex) { st = errToken(ex); }
+        ss.clear();
+        const long long pos = static_cast<long long>(ss.tellg());
+        if (i != 3) res << ' ';
+        res << st << '=' << hex(out.str()) << '=' << pos;
+      }
+    }
     else if (mode == "events")
     {
       const std::string log = arg(0);
